@@ -178,6 +178,14 @@ def calls(yaml):
         PathDumper = type(dname, (dbase,), {})
         PathDumper.add_path_resolver("!at-a", ["a"], dict)
         PathDumper.add_path_resolver("!item", [None], str)
+        # ... and implicit resolvers of their own: one for any first character (the documented default first=None), one for a
+        # single first character
+        import re as _re
+        for C_ in (PathLoader, PathDumper):
+            C_.add_implicit_resolver("!version", _re.compile(r"^v[0-9]+$"), None)
+            C_.add_implicit_resolver("!percent", _re.compile(r"^%[a-z]+$"), ["%"])
+        APP_CLASSES[lname] = PathLoader
+        APP_CLASSES[dname] = PathDumper
         out.append(("compose_all:%s" % lname, "text", lambda i, k, L=PathLoader: consume(yaml.compose_all(TEXTS[i], Loader=L), k)))
         out.append(("load:%s" % lname, "text", lambda i, k, L=PathLoader: summarize(yaml.load(TEXTS[i], Loader=L))))
         out.append(("load_all:%s" % lname, "text", lambda i, k, L=PathLoader: consume(yaml.load_all(TEXTS[i], Loader=L), k)))
@@ -223,6 +231,9 @@ def run_call(yaml, catalogue, ci, ii, k):
         return ("exc", "RecursionError", "")
     except Exception as e:
         return ("exc", type(e).__name__, str(e))
+
+
+APP_CLASSES = {}        # application classes of the catalogue (their class-level tables are library-level state as well)
 
 
 def fingerprint(yaml):
@@ -273,4 +284,9 @@ def fingerprint(yaml):
                 h.update(("%s.%s=%s\n" % (mname, gname, enc(g))).encode("utf-8", "backslashreplace"))
             else:
                 h.update(("%s.%s:%s\n" % (mname, gname, enc(g))).encode("utf-8", "backslashreplace"))
+    for cname in sorted(APP_CLASSES):
+        for aname in sorted(vars(APP_CLASSES[cname])):
+            if aname.startswith("__"):
+                continue
+            h.update(("app.%s.%s=%s\n" % (cname, aname, enc(vars(APP_CLASSES[cname])[aname]))).encode("utf-8", "backslashreplace"))
     return h.hexdigest()
